@@ -52,7 +52,7 @@ LEVEL_NOTE = (
     "Trusts Python's str.splitlines as the line convention (the library's own); sources longer than the bound and "
     "characters outside the alphabet are not covered; a zero-width error at offset len(source) counts as inside (end of input)."
 )
-TECHNIQUE = "bounded-exhaustive enumeration of source texts (token sequences + all prefixes/single-edit mutants of a corpus) against a tiling/position oracle"
+TECHNIQUE = "bounded-exhaustive enumeration of source texts (token sequences + all prefixes/single-edit mutants of a corpus) against a tiling/position oracle + all two-parse histories with the first error kept and re-read"
 ENGINES = ["E1 spaces"]
 ASSUMPTIONS = [
     "line/column convention is Python's str.splitlines (the convention the library itself uses)",
